@@ -334,6 +334,28 @@ Proof.
   - rewrite C1, C2. rewrite <- Uj. ring.
 Qed.
 
+(* the same without unit vectors: equal star lengths |e_i| = |e_j| suffice for four equal sides *)
+Theorem dual_rhombus_equal_sides : forall g i j li lj Ps q00 q10 q11 q01,
+  length (g_normals g) = n_bundles g -> (i < n_bundles g)%nat -> (j < n_bundles g)%nat -> i <> j ->
+  qv_norm2 (grad g i) == qv_norm2 (grad g j) ->
+  in_cell g i j li lj Ps 0 0 q00 -> in_cell g i j li lj Ps 1 0 q10 ->
+  in_cell g i j li lj Ps 1 1 q11 -> in_cell g i j li lj Ps 0 1 q01 ->
+  let V := dual_vertex g in
+  let l2 := qv_norm2 (grad g i) in
+  qv_norm2 (qv_sub (V q10) (V q00)) == l2 /\ qv_norm2 (qv_sub (V q11) (V q10)) == l2 /\
+  qv_norm2 (qv_sub (V q01) (V q11)) == l2 /\ qv_norm2 (qv_sub (V q00) (V q01)) == l2.
+Proof.
+  intros g i j li lj Ps q00 q10 q11 q01 HL Hi Hj Hij Heq H00 H10 H11 H01 V l2.
+  destruct (dual_parallelogram g i j li lj Ps q00 q10 q11 q01 HL Hi Hj Hij H00 H10 H11 H01)
+    as ([A1 A2] & [B1 B2] & [C1 C2] & [D1 D2]). fold V in A1, A2, B1, B2, C1, C2, D1, D2.
+  unfold l2. unfold qv_norm2, qv_dot, qv_sub, qv_add in *; simpl in *.
+  repeat split.
+  - rewrite A1, A2. ring.
+  - rewrite D1, D2. rewrite Heq. ring.
+  - rewrite B1, B2. ring.
+  - rewrite C1, C2. rewrite Heq. ring.
+Qed.
+
 (* ---------- small perturbations do not change a floor ---------- *)
 (* a non-integer stays in its unit interval under a small enough perturbation *)
 Lemma floor_stable : forall c : Q, ~ c == inject_Z (Qfloor c) ->
